@@ -154,12 +154,24 @@ static void m_copycols(int a, int b, rng_t *r, int opt)
 	for (int j = 0; j < B->C; j++) for (int i = 0; i < A->R; i++) if (A->M[i][cols[j]]) B->M[i][j] = 1;
 	g_ops++;
 }
+static rng_t *g_cf_rng;
 static void m_copy_filled(int a, int b)
 {	/* destination must have at least as many rows/cols as a has non-empty ones; entries are added to what b holds */
 	smat_t *A = &g_m[a], *B = &g_m[b]; UINT32 ir[MAXD], ic[MAXD]; int nr = 0, nc = 0;
 	for (int i = 0; i < A->R; i++) { int w = 0; for (int j = 0; j < A->C; j++) w += A->M[i][j]; ir[i] = w ? (UINT32)nr++ : 0; }
 	for (int j = 0; j < A->C; j++) { int w = 0; for (int i = 0; i < A->R; i++) w += A->M[i][j]; ic[j] = w ? (UINT32)nc++ : 0; }
 	if (nr > B->R || nc > B->C) return;
+	if (g_cf_rng && rng_below(g_cf_rng, 2)) {
+		/* the index tables are the caller's: any injective maps of the non-empty rows / columns, not only the increasing compaction */
+		UINT32 pr[MAXD], pc[MAXD];
+		for (int i = 0; i < B->R; i++) pr[i] = (UINT32)i;
+		for (int j = 0; j < B->C; j++) pc[j] = (UINT32)j;
+		for (int i = B->R; i > 1; i--) { uint32_t x = rng_below(g_cf_rng, (uint32_t)i); UINT32 t = pr[i - 1]; pr[i - 1] = pr[x]; pr[x] = t; }
+		for (int j = B->C; j > 1; j--) { uint32_t x = rng_below(g_cf_rng, (uint32_t)j); UINT32 t = pc[j - 1]; pc[j - 1] = pc[x]; pc[x] = t; }
+		int q = 0; for (int i = 0; i < A->R; i++) { int w = 0; for (int j = 0; j < A->C; j++) w += A->M[i][j]; if (w) ir[i] = pr[q++]; }
+		q = 0; for (int j = 0; j < A->C; j++) { int w = 0; for (int i = 0; i < A->R; i++) w += A->M[i][j]; if (w) ic[j] = pc[q++]; }
+		rep_count("copy_filled_matrix_calls_with_permuted_index_maps", 1);
+	}
 	g_lastop = "copy_filled_matrix";
 	LIB_ENTER(); of_mod2sparse_copy_filled_matrix(A->m, B->m, ir, ic); LIB_LEAVE();
 	for (int i = 0; i < A->R; i++) for (int j = 0; j < A->C; j++) if (A->M[i][j]) B->M[ir[i]][ic[j]] = 1;
@@ -357,7 +369,7 @@ static void random_sequence(rng_t *r, int len, int maxdim, int dense_fill)
 		else if (op < 84) { int b = 1 + (int)rng_below(r, 2); g_keep_dest = (int)rng_below(r, 2); if (!g_keep_dest) m_clear(b); /* the _opt variants add to what the destination holds */
 				    if (g_viol_total == viol0) { check(&g_m[b], 0); m_copyrows(0, b, r, 1); } g_keep_dest = 0; k = b; }
 		else if (op < 88) { int b = 1 + (int)rng_below(r, 2); int Rb = g_m[b].R, Cb = g_m[b].C; g_keep_dest = (int)rng_below(r, 2); if (!g_keep_dest) { m_free(b); m_alloc(b, Rb, Cb); } m_copycols(0, b, r, 1); g_keep_dest = 0; k = b; }
-		else if (op < 92) { int b = 1 + (int)rng_below(r, 2); m_copy_filled(0, b); k = b; }
+		else if (op < 92) { int b = 1 + (int)rng_below(r, 2); g_cf_rng = r; m_copy_filled(0, b); g_cf_rng = NULL; k = b; }
 		else if (op < 96) { int b = 1 + (int)rng_below(r, 2); m_roundtrip(0, b, r); k = b; }
 		else { int Rk = s->R, Ck = s->C; m_free(k); m_alloc(k, Rk, Ck); }
 		/* long sequences: the O(size) walk runs every 16th step (every step for short ones), the full find() sweep more rarely */
